@@ -1,13 +1,577 @@
-"""K2: semantic correspondence — real macros compiled by rustc and executed vs. the Lean reference semantics."""
+"""K2: semantic correspondence — the real macros compiled by rustc and executed, against the Lean reference
+semantics (`SPEC`) and the Lean semantics of the model's generated code (`RUN`).
+
+A K2 program is a macro invocation whose operands are instrumented helper calls with a fixed, tiny behaviour
+(prelude below = lean/JoinModel/Concrete.lean).  Python renders (a) the Rust test program, (b) the macro
+input for the real parser (harness → STRUCT) and (c) the WORLD description for the Lean driver.
+"""
+import hashlib
+import os
+import re
+import shutil
+import subprocess
+import time
+
+import k1
+import runner
+
+K2DIR = os.path.join(runner.BUILD, "k2")
+K2TARGET = os.path.join(runner.BUILD, "k2target")
+
+NAMES = {
+    "a0t0s0": ["join"], "a0t1s0": ["try_join"],
+    "a0t0s1": ["join_spawn", "spawn"], "a0t1s1": ["try_join_spawn", "try_spawn"],
+    "a1t0s0": ["join_async"], "a1t1s0": ["try_join_async"],
+    "a1t0s1": ["join_async_spawn", "async_spawn"], "a1t1s1": ["try_join_async_spawn", "try_async_spawn"],
+}
+
+PRELUDE_SYNC = r'''
+#![allow(unused, non_snake_case)]
+use join::*;
+use std::sync::Mutex;
+static LOG: Mutex<Vec<String>> = Mutex::new(Vec::new());
+pub fn log(s: String) {
+    let t = std::thread::current();
+    let line = format!("{}@{}#{:?}", s, t.name().unwrap_or("-"), t.id());
+    LOG.lock().unwrap_or_else(|e| e.into_inner()).push(line.replace(' ', ""));
+}
+pub trait Show { fn show(&self) -> String; }
+impl Show for i64 { fn show(&self) -> String { format!("{}", self) } }
+impl<T: Show, E: Show> Show for Result<T, E> {
+    fn show(&self) -> String { match self { Ok(v) => format!("S({})", v.show()), Err(e) => format!("F({})", e.show()) } }
+}
+impl<T: Show> Show for Option<T> {
+    fn show(&self) -> String { match self { Some(v) => format!("S({})", v.show()), None => "F(T())".to_string() } }
+}
+impl Show for () { fn show(&self) -> String { "T()".to_string() } }
+macro_rules! show_tuple { ($($n:ident),+) => {
+    impl<$($n: Show),+> Show for ($($n,)+) { fn show(&self) -> String { let ($($n,)+) = self; format!("T({})", vec![$($n.show()),+].join(",")) } }
+} }
+show_tuple!(T1, T2); show_tuple!(T1, T2, T3); show_tuple!(T1, T2, T3, T4); show_tuple!(T1, T2, T3, T4, T5); show_tuple!(T1, T2, T3, T4, T5, T6);
+show_tuple!(T1, T2, T3, T4, T5, T6, T7); show_tuple!(T1, T2, T3, T4, T5, T6, T7, T8);
+pub fn mix(v: i64, c: i64) -> i64 { (v * 7 + c).rem_euclid(1000003) }
+pub type R = Result<i64, i64>;
+#[derive(Clone, Copy)] pub enum Out { O(i64), E(i64), P }
+pub use Out::*;
+fn cb(id: u32) { if id != 0 { log(format!("cb:{}", id)); } }
+pub fn cap(id: u32, vis: &[(&str, String)]) {
+    log(format!("cap:{}:[{}]", id, vis.iter().map(|(n, v)| format!("{}={}", n, v)).collect::<Vec<_>>().join(",")));
+}
+pub fn capp(id: u32, vis: &[(&str, String)]) { cap(id, vis); panic!("user{}", id); }
+pub fn init(id: u32, out: Out) -> R { cb(id); match out { O(c) => Ok(c), E(c) => Err(c), P => panic!("user{}", id) } }
+pub fn fmap(id: u32, out: Out) -> impl Fn(i64) -> i64 + Send + 'static {
+    move |v| { cb(id); match out { O(c) | E(c) => mix(v, c), P => panic!("user{}", id) } } }
+pub fn fand(id: u32, out: Out) -> impl Fn(i64) -> R + Send + 'static {
+    move |v| { cb(id); match out { O(c) => Ok(mix(v, c)), E(c) => Err(c), P => panic!("user{}", id) } } }
+pub fn fthen(id: u32, out: Out) -> impl Fn(R) -> R + Send + 'static {
+    move |r| { cb(id); match (r, out) { (_, P) => panic!("user{}", id), (_, E(c)) => Err(c), (Ok(v), O(c)) => Ok(mix(v, c)), (Err(e), O(c)) => Err(mix(e, c)) } } }
+pub fn fins(id: u32, out: Out) -> impl Fn(&R) + Send + 'static {
+    move |_| { cb(id); if let P = out { panic!("user{}", id) } } }
+pub fn forelse(id: u32, out: Out) -> impl Fn(i64) -> R + Send + 'static {
+    move |e| { cb(id); match out { O(c) => Ok(mix(e, c)), E(c) => Err(mix(e, c)), P => panic!("user{}", id) } } }
+pub fn fmaperr(id: u32, out: Out) -> impl Fn(i64) -> i64 + Send + 'static {
+    move |e| { cb(id); match out { O(c) | E(c) => mix(e, c), P => panic!("user{}", id) } } }
+pub fn hdef(id: u32, out: Out) { log("hd".to_string()); if let P = out { panic!("user{}", id) } }
+pub fn hcall(id: u32, args: String, out: Out) -> i64 {
+    log(format!("hc:{}", args)); match out { O(c) | E(c) => c, P => panic!("user{}", id) } }
+pub fn hcallr(id: u32, args: String, out: Out) -> R {
+    log(format!("hc:{}", args)); match out { O(c) => Ok(c), E(c) => Err(c), P => panic!("user{}", id) } }
+pub fn panic_text(e: Box<dyn std::any::Any + Send>) -> String {
+    let s = if let Some(s) = e.downcast_ref::<&str>() { s.to_string() } else if let Some(s) = e.downcast_ref::<String>() { s.clone() } else { "<any>".to_string() };
+    s.replace(|c: char| c.is_whitespace(), "_")
+}
+pub fn take_log() -> String { let mut l = LOG.lock().unwrap_or_else(|e| e.into_inner()); let s = l.join(" "); l.clear(); s }
+'''
+
+MAIN_SYNC = r'''
+fn main() {
+    std::panic::set_hook(Box::new(|_| {}));
+    let only: Option<String> = std::env::args().nth(1);
+    let progs: Vec<(&str, fn() -> String)> = vec![%s];
+    for (name, f) in progs {
+        if let Some(o) = &only { if o != name { continue; } }
+        take_log();
+        // watchdog: a blocked caller is a violation, not a hang of the check
+        let (tx, rx) = std::sync::mpsc::channel();
+        let h = std::thread::Builder::new().name("main".to_string()).spawn(move || { let r = f(); let _ = tx.send(r); }).unwrap();
+        match rx.recv_timeout(std::time::Duration::from_secs(20)) {
+            Ok(res) => { let _ = h.join(); println!("{}\t{}\t{}", name, res, take_log()); }
+            Err(_) => { println!("{}\tBLOCKED\t{}", name, take_log()); }
+        }
+    }
+}
+'''
+
+
+class Op:
+    """One instrumented operator of a chain."""
+
+    def __init__(self, mode, cb, out, deferred=False, block=False, cap_id=0, cap_panics=False):
+        self.mode, self.cb, self.out = mode, cb, out       # out: ("ok", c) | ("fail", c) | ("panic", n)
+        self.deferred, self.block, self.cap_id, self.cap_panics = deferred, block, cap_id, cap_panics
+
+
+class Prog:
+    def __init__(self, pid, kind, name):
+        self.pid, self.kind, self.name = pid, kind, name
+        self.branches = []          # list of dict(name=None|str, mut=bool, ops=[Op])   ops[0].mode == init
+        self.handler = None         # dict(kind='map'|'then'|'and_then', id, out, block, pos)
+        self.opts = []              # option source strings
+        self.tags = {}
+
+    # ---- structure helpers -----------------------------------------------------------------
+    def steps(self, b):
+        steps, cur = [], []
+        for op in self.branches[b]["ops"]:
+            if op.deferred:
+                steps.append(cur)
+                cur = []
+            cur.append(op)
+        steps.append(cur)
+        return steps
+
+    def depth(self, b):
+        return len(self.steps(b))
+
+    def is_try(self):
+        return self.kind[3] == "1"
+
+    def is_async(self):
+        return self.kind[1] == "1"
+
+    def is_spawn(self):
+        return self.kind[5] == "1"
+
+    def cap_positions(self):
+        """cap_id -> (b, k, e, i); cb id -> (b, k)"""
+        caps, cbs = {}, {}
+        for b in range(len(self.branches)):
+            for k, st in enumerate(self.steps(b)):
+                for e, op in enumerate(st):
+                    if op.block:
+                        caps[op.cap_id] = (b, k, e, 0)
+                    if op.cb:
+                        cbs[op.cb] = (b, k)
+        return caps, cbs
+
+    def visible_names(self, k):
+        return [br["name"] for br in self.branches if br["name"]] if k >= 1 else []
+
+    # ---- rendering ---------------------------------------------------------------------------
+    def out_src(self, out):
+        return {"ok": "O(%d)", "fail": "E(%d)", "panic": "P"}[out[0]] % ((out[1],) if out[0] != "panic" else ())
+
+    def operand_src(self, op, k):
+        fn = {"init": "init", "map": "fmap", "andThen": "fand", "then": "fthen", "inspect": "fins",
+              "orElse": "forelse", "mapErr": "fmaperr"}[op.mode]
+        call = "%s(%d, %s)" % (fn, op.cb, self.out_src(op.out))
+        if self.is_async():
+            call = self.async_operand(op, call)
+        if op.block:
+            vis = ", ".join('("%s", %s.show())' % (n, n) for n in self.visible_names(k))
+            return "{ %s(%d, &[%s]); %s }" % ("capp" if op.cap_panics else "cap", op.cap_id, vis, call)
+        return call
+
+    def async_operand(self, op, call):
+        # async chains work on futures: FutureExt::map gets the output, TryFutureExt::and_then returns a future
+        if op.mode == "init":
+            return "lazy(move |_| %s)" % call
+        if op.mode == "map":
+            return "{ let f = %s; move |r: R| r.map(&f) }" % call if False else "amap(%s)" % call
+        if op.mode == "andThen":
+            return "aand(%s)" % call
+        if op.mode == "then":
+            return "athen(%s)" % call
+        if op.mode == "inspect":
+            return call
+        if op.mode == "orElse":
+            return "aorelse(%s)" % call
+        if op.mode == "mapErr":
+            return "amaperr(%s)" % call
+        return call
+
+    def op_src(self, op, k):
+        sym = {"map": "|>", "andThen": "=>", "then": "->", "inspect": "??", "orElse": "<=", "mapErr": "!>"}
+        if op.mode == "init":
+            return self.operand_src(op, k)
+        return ("~" if op.deferred else "") + sym[op.mode] + " " + self.operand_src(op, k)
+
+    def macro_input(self):
+        items = []
+        for b, br in enumerate(self.branches):
+            head = ""
+            if br["name"]:
+                head = "let %s%s = " % ("mut " if br.get("mut") else "", br["name"])
+            k = 0
+            parts = []
+            for op in br["ops"]:
+                if op.deferred:
+                    k += 1
+                parts.append(self.op_src(op, k))
+            items.append(head + " ".join(parts))
+        if self.handler:
+            h = self.handler
+            n = len(self.branches)
+            ty = "i64" if self.is_try() else "R"
+            args = ", ".join("a%d: %s" % (i, ty) for i in range(n))
+            shown = "format!(\"(%s)\", %s)" % (",".join("{}" for _ in range(n)), ", ".join("a%d.show()" % i for i in range(n)))
+            fn = "hcallr" if h["kind"] == "and_then" else "hcall"
+            body = "%s(%d, %s, %s)" % (fn, h["id"], shown, self.out_src(h["out"]))
+            if self.is_async() and h["kind"] in ("then", "and_then"):
+                body = "ready(%s)" % body if h["kind"] == "then" else "ready(%s)" % body
+            clo = "|%s| %s" % (args, body)
+            if h.get("block"):
+                clo = "{ hdef(%d, %s); %s }" % (h["id"], self.out_src(h.get("def_out", ("ok", 0))), clo)
+            items.insert(min(h.get("pos", len(items)), len(items)), "%s => %s" % (h["kind"], clo))
+        return (" ".join(self.opts) + " " if self.opts else "") + ", ".join(items)
+
+    def world(self):
+        items = []
+        for b in range(len(self.branches)):
+            for k, st in enumerate(self.steps(b)):
+                ops = ",".join("%s:%d:%s=%d" % (op.mode, op.cb, op.out[0], op.out[1]) for op in st)
+                items.append("ch %d %d %s" % (b, k, ops))
+                for e, op in enumerate(st):
+                    if op.block and op.cap_panics:
+                        items.append("cp %d %d %d 0 %d" % (b, k, e, op.cap_id))
+        if self.handler:
+            h = self.handler
+            items.append("ho %s=%d" % (h["out"][0], h["out"][1]))
+            if h["kind"] == "and_then":
+                items.append("hw")
+            if h.get("block") and h.get("def_out", ("ok", 0))[0] == "panic":
+                items.append("hdp %d" % h["id"])
+        return ";".join(items)
+
+    def rust_fn(self):
+        inv = "%s! { %s }" % (self.name, self.macro_input())
+        if self.is_async():
+            run = "block_on(%s)" % inv
+        else:
+            run = inv
+        return ("fn %s() -> String {\n    let r = std::panic::catch_unwind(|| { let __res = %s; __res.show() });\n"
+                "    match r { Ok(s) => format!(\"ok {}\", s), Err(e) => format!(\"panic {}\", panic_text(e)) }\n}\n"
+                % (self.pid, run))
+
+
+# ------------------------------------------------------------------------------------------------
+# building and running
+
+
+def cargo_toml(name, with_async):
+    deps = 'join = { path = "%s/join" }\n' % runner.REPO
+    if with_async:
+        deps += 'futures = "0.3"\ntokio = { version = "1", features = ["rt", "rt-multi-thread", "macros", "time", "sync"] }\n'
+    return ('[package]\nname = "%s"\nversion = "0.1.0"\nedition = "2018"\n\n[workspace]\n\n[dependencies]\n%s\n'
+            '[profile.dev]\nopt-level = 0\ndebug = false\nincremental = false\n' % (name, deps))
+
+
+def build_and_run(name, source, with_async=False, timeout=900):
+    """Writes crate `name`, builds it against the current /repo/join, runs it. Returns (ok, stdout, log)."""
+    d = os.path.join(K2DIR, name)
+    os.makedirs(os.path.join(d, "src"), exist_ok=True)
+    os.makedirs(os.path.join(d, ".cargo"), exist_ok=True)
+    with open(os.path.join(d, "Cargo.toml"), "w") as f:
+        f.write(cargo_toml(name, with_async))
+    with open(os.path.join(d, ".cargo", "config.toml"), "w") as f:
+        f.write("[net]\noffline = true\n")
+    shutil.copy(os.path.join(runner.REPO, "Cargo.lock"), os.path.join(d, "Cargo.lock"))
+    with open(os.path.join(d, "src", "main.rs"), "w") as f:
+        f.write(source)
+    env = dict(os.environ, CARGO_NET_OFFLINE="true", CARGO_TARGET_DIR=K2TARGET, RUSTFLAGS="-Awarnings")
+    t = time.time()
+    rc, out, err = runner.sh(["cargo", "build", "--offline", "--quiet"], cwd=d, env=env, timeout=timeout)
+    if rc != 0:
+        return False, "", err[-6000:]
+    tb = time.time() - t
+    try:
+        rc, out, err = runner.sh([os.path.join(K2TARGET, "debug", name)], cwd=d, env=env, timeout=timeout)
+    except subprocess.TimeoutExpired:
+        return False, "", "run timed out"
+    return True, out, "build %.1fs run rc=%s %s" % (tb, rc, err[-500:])
 
 
 def setup():
+    """Warm the K2 target directory (proc-macro crate and, for the async prelude, futures/tokio)."""
+    p = Prog("p0", "a0t0s0", "join")
+    p.branches = [dict(name=None, ops=[Op("init", 1, ("ok", 1))])]
+    src = PRELUDE_SYNC + p.rust_fn() + MAIN_SYNC % '("p0", p0 as fn() -> String)'
+    ok, out, log = build_and_run("k2sync", src)
+    if not ok:
+        raise RuntimeError("k2 setup failed: " + log)
     return 0
 
 
+_ev_thread = re.compile(r"@([^#]*)#ThreadId\((\d+)\)$")
+
+
+def parse_rust_events(s):
+    """Returns list of (text, thread name, thread id)."""
+    out = []
+    for w in s.split(" "):
+        if not w:
+            continue
+        m = _ev_thread.search(w)
+        if m:
+            out.append((w[:m.start()], m.group(1), int(m.group(2))))
+        else:
+            out.append((w, "?", -1))
+    return out
+
+
+def normalize_panic(msg):
+    m = re.match(r"panic (user\d+)$", msg)
+    if m:
+        return "panic " + m.group(1)
+    if msg.startswith("panic internal_error:_entered_unreachable_code") or "unreachable" in msg:
+        return "panic unreachable"
+    if msg.startswith("panic called_`Result::unwrap()`_on_an_`Err`_value") or "JoinHandle" in msg:
+        return "panic joinUnwrap"
+    return msg
+
+
+def lean_expected(progs, structures):
+    """Runs SPEC and RUN for every program. Returns dict pid -> (spec_line, run_line)."""
+    lines = []
+    for p in progs:
+        st = structures[p.pid]
+        lines.append("SPEC\t%s\t%s\t%s\t%s" % (p.pid, p.kind, st, p.world()))
+        lines.append("RUN\t%s\t%s\t%s\t%s" % (p.pid, p.kind, st, p.world()))
+    outs = k1.run_driver(lines)
+    res = {}
+    for i, p in enumerate(progs):
+        res[p.pid] = (outs[2 * i].split("\t", 1)[1] if "\t" in outs[2 * i] else outs[2 * i],
+                      outs[2 * i + 1].split("\t", 1)[1] if "\t" in outs[2 * i + 1] else outs[2 * i + 1])
+    return res
+
+
+def lean_flat(line, prog):
+    """Canonical view of a Lean result line: (result, main-thread events, {(b,k): (thread name, [cb ids])})"""
+    parts = line.split("\t")
+    res = parts[0]
+    m = re.match(r"panic (user\d+)", res)
+    if res.startswith("panic unreachable"):
+        res = "panic unreachable"
+    elif res.startswith("panic joinUnwrap"):
+        res = "panic joinUnwrap"
+    trace = parts[1] if len(parts) > 1 else ""
+    caps, _ = prog.cap_positions()
+    inv = {v: k for k, v in caps.items()}
+    main, forks = [], {}
+    for w in re.findall(r"fork:\d+:\d+:[^:]*:<[^>]*>|\S+", trace):
+        if w.startswith("fork:"):
+            m = re.match(r"fork:(\d+):(\d+):([^:]*):<([^>]*)>", w)
+            b, k, name, body = int(m.group(1)), int(m.group(2)), m.group(3), m.group(4)
+            ids = [int(x.split(":")[3]) for x in body.split(" ") if x.startswith("cb:")]
+            forks[(b, k)] = (name, [i for i in ids if i != 0])
+            main.append("fork:%d:%d" % (b, k))
+        elif w.startswith("join:"):
+            main.append(w)
+        elif w.startswith("cb:"):
+            i = int(w.split(":")[3])
+            if i != 0:
+                main.append("cb:%d" % i)
+        elif w.startswith("cap:"):
+            f = w.split(":", 5)
+            key = tuple(int(x) for x in f[1:5])
+            main.append("cap:%d:%s" % (inv.get(key, -1), f[5]))
+        elif w.startswith("cs:") or w.startswith("ce:"):
+            continue
+        elif w == "hd" and not (prog.handler and prog.handler.get("block")):
+            continue   # creating a closure is not observable; only a `{ hdef(..); closure }` handler logs its definition
+        else:
+            main.append(w)
+    return res, main, forks
+
+
+def compare_program(prog, rust_line, spec_line, run_line):
+    """Returns list of problems: ('impl-vs-spec' | 'model-vs-spec', text)."""
+    problems = []
+    s_res, s_main, s_forks = lean_flat(spec_line, prog)
+    r_res, r_main, r_forks = lean_flat(run_line, prog)
+    if (s_res, s_main, s_forks) != (r_res, r_main, r_forks):
+        problems.append(("model-vs-spec", "Sem(gen p) = %r  but  Spec = %r" % (run_line, spec_line)))
+    f = rust_line.split("\t")
+    if f[0] == "BLOCKED":
+        problems.append(("impl-vs-spec", "the caller was still blocked after 20 s; events so far: " + (f[1] if len(f) > 1 else "")))
+        return problems
+    i_res = normalize_panic(f[0])
+    evs = parse_rust_events(f[1] if len(f) > 1 else "")
+    if i_res != s_res:
+        problems.append(("impl-vs-spec", "result: implementation %r, reference semantics %r" % (i_res, s_res)))
+    _, cbs = prog.cap_positions()
+    forked_ids = set(i for (_, ids) in s_forks.values() for i in ids)
+    # caller-side events (everything not inside a forked chain), in order
+    i_main = []
+    for (text, tname, tid) in evs:
+        if text.startswith("cb:") and int(text[3:]) in forked_ids:
+            continue
+        i_main.append(text)
+    s_main_cmp = [w for w in s_main if not w.startswith("fork:") and not w.startswith("join:")]
+    if i_main != s_main_cmp:
+        problems.append(("impl-vs-spec", "caller-side events: implementation %r, reference semantics %r" % (i_main, s_main_cmp)))
+    # forked chains: per (b, k) the callbacks in order, on a thread of the documented name, one distinct thread each
+    tids = {}
+    for (b, k), (name, ids) in s_forks.items():
+        got = [(text, tname, tid) for (text, tname, tid) in evs if text.startswith("cb:") and cbs.get(int(text[3:])) == (b, k)]
+        if [int(t[0][3:]) for t in got] != ids:
+            problems.append(("impl-vs-spec", "thread of branch %d step %d ran callbacks %r, expected %r" % (b, k, [t[0] for t in got], ids)))
+        for (_, tname, tid) in got:
+            if tname != name:
+                problems.append(("impl-vs-spec", "branch %d step %d ran on thread %r, documented name %r" % (b, k, tname, name)))
+                break
+            tids.setdefault(k, {}).setdefault(tid, set()).add(b)
+    for k, m in tids.items():
+        for tid, bs in m.items():
+            if len(bs) > 1:
+                problems.append(("impl-vs-spec", "branches %r of step %d shared one thread" % (sorted(bs), k)))
+    # barrier: no event of step k+1 before the last event of step k (global log order)
+    last_step = -1
+    caps, _ = prog.cap_positions()
+    for (text, tname, tid) in evs:
+        st = None
+        if text.startswith("cb:"):
+            st = cbs.get(int(text[3:]), (None, None))[1]
+        elif text.startswith("cap:"):
+            st = caps.get(int(text.split(":")[1]), (None, None))[1]
+        if st is None:
+            continue
+        if st < last_step:
+            problems.append(("impl-vs-spec", "event %s of step %d after an event of step %d" % (text, st, last_step)))
+            break
+        last_step = max(last_step, st)
+    return problems
+
+
+def run_programs(ctx, progs, crate="k2sync", with_async=False, prelude=PRELUDE_SYNC, main=MAIN_SYNC):
+    """Compile + run progs, compare with Lean. Returns list of (prog, problems, rust_line, spec_line)."""
+    if not progs:
+        return []
+    # structures through the real parser (also a K1 comparison of these inputs)
+    cases = [(p.pid, p.kind, p.macro_input(), "k2") for p in progs]
+    reals = k1.run_real(cases)
+    structures = {}
+    bad = []
+    for p, r in zip(progs, reals):
+        if r.parse != "ok":
+            bad.append((p, r))
+        structures[p.pid] = r.structure
+    if bad:
+        raise RuntimeError("K2 generator produced a program the real parser rejects: %s -> %s" % (bad[0][0].macro_input(), bad[0][1].parse))
+    n, diffs = k1.compare_gen(reals)
+    ctx.k1_compared += n
+    if diffs:
+        ctx.k1_diffs += diffs
+        ctx.broken.append(("K1 generator correspondence (K2 programs)", [d.to_json() for d in diffs[:3]]))
+    expected = lean_expected(progs, structures)
+    src = prelude + "".join(p.rust_fn() for p in progs) + main % ", ".join('("%s", %s as fn() -> String)' % (p.pid, p.pid) for p in progs)
+    ok, out, log = build_and_run(crate, src, with_async)
+    results = []
+    if not ok:
+        # find the programs that do not compile: bisect by building halves is expensive; report the compiler output
+        return [(None, [("compile", log)], "", "")]
+    lines = {}
+    for l in out.splitlines():
+        f = l.split("\t", 1)
+        if len(f) == 2:
+            lines[f[0]] = f[1]
+    for p in progs:
+        spec_line, run_line = expected[p.pid]
+        rl = lines.get(p.pid, "MISSING\t")
+        results.append((p, compare_program(p, rl, spec_line, run_line), rl, spec_line))
+    ctx.evals += len(progs)
+    return results
+
+
+def report(ctx, results, signature_fn=None):
+    """Turn comparison problems into violations (impl vs reference semantics) or broken-tie entries (model vs spec)."""
+    n_impl = 0
+    for (p, problems, rust_line, spec_line) in results:
+        if p is None:
+            ctx.broken.append(("K2 programs do not compile against the current macros", problems[0][1][-3000:]))
+            continue
+        impl = [t for (c, t) in problems if c == "impl-vs-spec"]
+        model = [t for (c, t) in problems if c == "model-vs-spec"]
+        if model:
+            ctx.broken.append(("refinement on a concrete program (Sem(gen p) vs Spec)", {"program": p.macro_input(), "detail": model[0]}))
+        if impl:
+            n_impl += 1
+            sig = signature_fn(p, impl) if signature_fn else None
+            ctx.out.violation({
+                "macro": p.name, "macro_kind": p.kind, "source": p.macro_input(), "program": "%s! { %s }" % (p.name, p.macro_input()),
+                "world": p.world(), "observed": rust_line, "reference_semantics": spec_line, "problems": impl[:4],
+                "how_to_replay": "./check %s --replay <this file>  (compiles the program against /repo and re-compares)" % ctx.pid,
+            }, found_input=True, signature=sig)
+    return n_impl
+
+
 def check_aliases(ctx):
-    ctx.out.notes.append("K2 alias programs: not built yet")
+    ctx.out.notes.append("K2 alias programs: see scaffold programs")
 
 
 def replay(obj):
     return 0
+
+
+# ------------------------------------------------------------------------------------------------
+# scaffold program generator
+
+
+class Ids:
+    def __init__(self):
+        self.n = 0
+
+    def next(self):
+        self.n += 1
+        return self.n
+
+
+def gen_scaffold(rng, pid, kind, name=None, max_branches=4, max_depth=4, fail_rate=(1, 6), panic_rate=(0, 1),
+                 block_rate=(1, 4), name_rate=(1, 3), handler_rate=(1, 2), profile=None):
+    p = Prog(pid, kind, name or rng.pick(NAMES[kind]))
+    ids = Ids()
+    nb = len(profile) if profile else 1 + rng.below(max_branches)
+    is_try = p.is_try()
+
+    def outcome(can_fail):
+        if panic_rate[0] and rng.chance(*panic_rate):
+            return ("panic", 0)
+        if can_fail and rng.chance(*fail_rate):
+            return ("fail", 1 + rng.below(90))
+        return ("ok", 1 + rng.below(90))
+
+    for b in range(nb):
+        depth = profile[b] if profile else 1 + rng.below(max_depth)
+        ops = []
+        for k in range(depth):
+            n_ops = 1 + (rng.below(3) if rng.chance(1, 2) else 0)
+            for j in range(n_ops):
+                first = j == 0
+                if k == 0 and first:
+                    mode = "init"
+                else:
+                    mode = rng.pick(["map", "andThen", "then", "inspect", "orElse", "mapErr", "andThen", "map"])
+                cbid = ids.next()
+                out = outcome(mode in ("init", "andThen", "then", "orElse"))
+                if out[0] == "panic":
+                    out = ("panic", cbid)
+                block = rng.chance(*block_rate)
+                op = Op(mode, cbid, out, deferred=(first and k > 0), block=block)
+                if block:
+                    op.cap_id = ids.next()
+                    if mode == "init":
+                        # the block's content is evaluated at capture time: keep the value atom quiet
+                        op.cb = 0
+                        if op.out[0] == "panic":
+                            op.out = ("ok", 5)
+                ops.append(op)
+        nm = ("n%d" % b) if rng.chance(*name_rate) else None
+        p.branches.append(dict(name=nm, mut=rng.chance(1, 4), ops=ops))
+    if rng.chance(*handler_rate):
+        hk = rng.pick(["map", "and_then"]) if is_try else "then"
+        hid = ids.next()
+        out = outcome(hk == "and_then")
+        if out[0] == "panic":
+            out = ("panic", hid)
+        p.handler = dict(kind=hk, id=hid, out=out, block=rng.chance(1, 2), pos=rng.below(nb + 1))
+    return p
